@@ -132,4 +132,9 @@ example : typeInstr false .GET [.string, .map .int .nat] = none := by rfl
 example : StackTy [C01.mapAB, C01.set13] [.map .string .nat, .set .int] :=
   .cons (by rfl) (.cons (by rfl) .nil)
 
+-- hashing and the remaining environment readers
+example : typeInstr false (.seq [.SHA512, .SHA3, .CAST .bytes, .TOTAL_VOTING_POWER, .MIN_BLOCK_TIME, .RENAME]) [.bytes]
+    = some (.ok [.nat, .nat, .bytes]) := by rfl
+example : typeInstr false (.CAST .int) [.nat] = none := by rfl
+
 end C02
